@@ -19,6 +19,7 @@ EXPLANATION = (
 def run(ctx: Ctx) -> None:
     ctx.do(C.rule_ts_fut)
     ctx.do(TR.rule_tt_comm)
+    ctx.do(TR.rule_alias_input)
     ctx.do(C.rule_aff_avg)
     ctx.do(C.rule_coh_src)
     ctx.do(C.rule_dom_phase)
